@@ -32,8 +32,9 @@ CLAIMS = {
         design_ref="DESIGN.md section 3.7 and section 4, C19",
         note="Trusted: TLC; the harness as scheduler/recorder (threads are parked only at the hook points, the allocator-clone point and "
              "harness points); the instrumented base allocator (quarantines instead of freeing, so blocks can be re-read). Bounds: "
-             "exhaustive model checking up to 4 threads x 2 rounds / 3 threads x 3 rounds; recorded runs up to 8 threads. Not covered: "
-             "a poisoned pool mutex (panic while it is held), reads of freed memory that happen to see the old contents.",
+             "exhaustive model checking up to 4 threads x 2 rounds / 3 threads x 3 rounds; recorded runs up to 8 threads. A get that panics inside the critical section "
+             "(get_with_size(usize::MAX) in the create branch, poisoning the pool mutex) is part of the model (GetPanic) and of the forced and "
+             "free-running runs. Not covered: reads of freed memory that happen to see the old contents.",
         technique="TLA+ spec (Pool.tla) model-checked with TLC (safety, action properties, liveness) + TLC-generated schedules forced on "
                   "real threads + TLC trace validation (PoolTrace.tla) and contract evaluation (PoolContract.tla) of every recorded execution",
         engine="pool"),
